@@ -98,9 +98,9 @@ func TestVerif_C02(t *testing.T) {
 	e0 := vfxDefaultSpec("c02e0", 0, seed)
 	e0.NumSlots, e0.SkipPercent = 14, 20
 	e1 := vfxDefaultSpec("c02e1", 1, seed+1)
-	e1.NumSlots, e1.FrameSize, e1.FanOut, e1.MaxTx = 16, 70, 2, 4
+	e1.NumSlots, e1.FrameSize, e1.FanOut, e1.MaxTx, e1.ZeroTimes = 16, 70, 2, 4, true
 	e2 := vfxDefaultSpec("c02e2", 2, seed+2)
-	e2.NumSlots, e2.FrameSize, e2.FanOut, e2.BigObjects, e2.MaxEntries = 14, 90, 5, true, 4
+	e2.NumSlots, e2.FrameSize, e2.FanOut, e2.BigObjects, e2.MaxEntries, e2.MultiSig, e2.Boundary = 14, 90, 5, true, 4, true, true
 	specs := []vfxSpec{e0, e1, e2}
 	if vh.Thorough() {
 		e3 := vfxDefaultSpec("c02e3", 700, seed+3)
@@ -190,7 +190,12 @@ func TestVerif_C02(t *testing.T) {
 						if got.ParentSlot != b.Parent {
 							diffs = append(diffs, fmt.Sprintf("parentSlot %d want %d", got.ParentSlot, b.Parent))
 						}
-						if got.BlockTime == nil || int64(*got.BlockTime) != b.Blocktime {
+						if b.Blocktime == 0 {
+							// a recorded block time of 0 is reported as null (or 0), never as another value
+							if got.BlockTime != nil && *got.BlockTime != 0 {
+								diffs = append(diffs, fmt.Sprintf("blockTime %d want 0/null", *got.BlockTime))
+							}
+						} else if got.BlockTime == nil || int64(*got.BlockTime) != b.Blocktime {
 							diffs = append(diffs, fmt.Sprintf("blockTime %v want %d", got.BlockTime, b.Blocktime))
 						}
 						if b.HasHeight && (got.BlockHeight == nil || *got.BlockHeight != b.Height) {
@@ -220,7 +225,7 @@ func TestVerif_C02(t *testing.T) {
 									Signatures []string `json:"signatures"`
 								}
 								_ = json.Unmarshal(got.Transactions[i].Transaction, &jt)
-								if len(jt.Signatures) != 1 || jt.Signatures[0] != want.Sig {
+								if len(jt.Signatures) < 1 || jt.Signatures[0] != want.Sig {
 									diffs = append(diffs, fmt.Sprintf("transaction #%d signature %v want %s", i, jt.Signatures, want.Sig))
 								}
 							}
@@ -314,7 +319,7 @@ func TestVerif_C02(t *testing.T) {
 				body, _, panicked, pmsg := vfxRPC(h, fmt.Sprintf(`{"jsonrpc":"2.0","id":1,"method":"getBlockTime","params":[%d]}`, b.Slot))
 				if panicked {
 					rep.Fail("handler-panic", pmsg, replay)
-				} else if r, err := vfxParseReply(body); err != nil || r.Error != nil || strings.TrimSpace(string(r.Result)) != fmt.Sprint(b.Blocktime) {
+				} else if r, err := vfxParseReply(body); err != nil || r.Error != nil || (strings.TrimSpace(string(r.Result)) != fmt.Sprint(b.Blocktime) && !(b.Blocktime == 0 && strings.TrimSpace(string(r.Result)) == "null")) {
 					if b.Slot != 0 {
 						rep.Fail("blocktime-differs-from-archive", fmt.Sprintf("%s getBlockTime(%d): %.200s want %d", tag, b.Slot, body, b.Blocktime), replay)
 					}
